@@ -396,10 +396,11 @@ class Decision(object):
                                     'result computed while three other threads do the same with THEIR arguments differ'))
 
     def finish(self, extra=None):
-        if getattr(self, '_race', None):
-            self.coverage.setdefault('distribution', {})
-            if isinstance(self.coverage['distribution'], dict):
-                self.coverage['distribution']['concurrent_use'] = self._race
+        for key, attr in (('concurrent_use', '_race'), ('through_the_dispatcher', '_dispatched')):
+            if getattr(self, attr, None):
+                self.coverage.setdefault('distribution', {})
+                if isinstance(self.coverage['distribution'], dict):
+                    self.coverage['distribution'][key] = getattr(self, attr)
         os.makedirs(EVIDENCE, exist_ok=True)
         os.makedirs(REPLAYS, exist_ok=True)
         lines = []
